@@ -661,6 +661,13 @@ def wipe(cls):
 _rowid = [0]
 
 
+def hit_same_row(cls, obj):
+    """select / selectBy / get that return the row of `obj` (the cache hands back the held instance)"""
+    rid = obj.id
+    got = list(cls.select(cls.q.id == rid)) + list(cls.selectBy(w=7)) + [cls.get(rid)] + list(cls.select())
+    return got
+
+
 def run_case(e, T, v, path, variant, cache):
     """returns dict with outcome of the write and of every read path on the real code"""
     cls = e['classes'][(T, variant, cache)]
@@ -684,6 +691,9 @@ def run_case(e, T, v, path, variant, cache):
                 views = []
                 obj.w
                 views.append(('after-expire-assign-reload', getattr(obj, a)))
+                # queries that return the SAME row while the assignment is (on a lazy class) still pending
+                hit_same_row(cls, obj)
+                views.append(('after-assign-then-select-of-the-row', getattr(obj, a)))
                 if cls.sqlmeta.lazyUpdate:
                     obj.syncUpdate()
                     views.append(('after-syncUpdate', getattr(obj, a)))
@@ -700,7 +710,10 @@ def run_case(e, T, v, path, variant, cache):
                     setattr(obj, a, v)
                     out['pending_view'] = ('ok', getattr(obj, a))
                     out['reads']['pending'] = ('ok', getattr(obj, a))
+                    hit_same_row(cls, obj)
+                    out['reads']['pending-after-select-of-the-row'] = ('ok', getattr(obj, a))
                     obj.syncUpdate()
+                    out['reads']['writer-right-after-syncUpdate'] = ('ok', getattr(obj, a))
                 else:
                     obj.set(**{a: v})
                     obj.sync()
@@ -738,6 +751,8 @@ def run_case(e, T, v, path, variant, cache):
     def selrow_cached():
         return getattr(list(cls.select(cls.q.id == rid))[0], a)
     rd('select-cached', selrow_cached)
+    # the writing instance again, after the queries above handed the same row to the cache
+    rd('writer-after-selects', lambda: getattr(obj, a))
     return out, cls, obj
 
 
